@@ -402,6 +402,38 @@ func blockFee(m *ledger.Model, txns coin.Transactions) uint64 {
 func (h *H) stepInjectTie() {
 	m := h.Pub.M
 	cand := h.pickInputs(m, 8, true, true)
+	// If no pair of outputs with comparable hours exists, make twins first: one harness-built block
+	// whose transaction pays two equal outputs (same coins, same hours) to two addresses; a later
+	// tie step then spends them with equal fees.
+	if h.sameHead() && h.Rng.Intn(2) == 0 {
+		for _, ux := range cand {
+			if _, ok := h.Chain.KeyFor(ux.Body.Address); !ok {
+				continue
+			}
+			hrs, ok := availableHours(m, []coin.UxOut{ux})
+			if !ok || hrs < 1000 || ux.Body.Coins < 4000 || ux.Body.Coins%2000 != 0 {
+				continue
+			}
+			half := ux.Body.Coins / 2
+			t := h.Chain.MakeTxn([]coin.UxOut{ux}, []fix.Out{
+				{Addr: h.Chain.Keys[4].Addr, Coins: half, Hours: hrs / 4},
+				{Addr: h.Chain.Keys[5].Addr, Coins: half, Hours: hrs / 4},
+			})
+			when := h.nextTime()
+			b := h.Chain.SignBlock(rawBlock(h.Fol.M, when, coin.Transactions{t}))
+			h.log("twin outputs block")
+			if h.offer(h.Fol, b, "direct") {
+				h.OldBlk = append(h.OldBlk, b)
+				h.noteSpent(h.Fol.M, b)
+				if !h.offer(h.Pub, b, "direct") {
+					h.Anomaly("publisher-rejects-direct-block", "twins "+h.lastRejectErr)
+				}
+				h.R.Count("inject.twin_blocks", 1)
+			}
+			h.checkAll("twins")
+			return
+		}
+	}
 	burn := uint64(m.P.Unconfirmed.BurnFactor)
 	if uint64(m.P.CreateBlock.BurnFactor) > burn {
 		burn = uint64(m.P.CreateBlock.BurnFactor)
